@@ -25,7 +25,7 @@ THEOREMS = ["Mpir.AllocSafe." + t for t in (
     "aorsmul_1_refines", "aorsmul_1_add_refines", "aorsmul_1_sub_ge_refines", "aorsmul_1_sub_lt_refines", "subGeFix_refines",
     "aorsmul_1_zero_refines", "aorsmul_refines", "aorsmulCore_refines", "add_S_refines", "sub_S_refines", "mpn_mul_tmp_spec",
     "Wrote.rd_src", "mpz_mul_alloc_safe", "mul_refines", "mulGeneric_refines", "mulTail_refines", "tmp_copy_spec", "Den.fresh",
-    "mpz_tdiv_q_alloc_safe", "mpz_tdiv_q_request_necessary", "mpz_tdiv_r_alloc_safe", "tdiv_q_refines", "tdiv_r_refines",
+    "mpz_tdiv_q_alloc_safe", "mpz_tdiv_q_request_necessary", "mpz_tdiv_r_request_necessary", "mpz_tdiv_r_alloc_safe", "tdiv_q_refines", "tdiv_r_refines",
     "Spec.tdiv_q_spec", "Spec.tdiv_r_spec", "copyIfSame_spec",
     "mpf_urandomb_dest_safe", "mpf_urandomb_seeded_overruns", "mpf_urandomb_fin_spec",
     "mpz_tdiv_qr_alloc_safe", "tdiv_qr_refines", "Grown.owf",
